@@ -2,7 +2,6 @@
 //@serves C01
 //@source gm-sm3/src/lib.rs
 //@section spec
-global size_of usize == 8;
 #[verifier::external]
 impl core::fmt::Debug for Sm3Error { fn fmt(&self, f: &mut core::fmt::Formatter<'_>) -> core::fmt::Result { Ok(()) } }
 // ---------- assumed std specs ----------
